@@ -365,12 +365,14 @@ def pass_lists(repo):
             if mm: asm_src = (int(mm.group(1)), t)
     if asm_src is None: raise FactsError("asm_generation: MAX_OPT_ROUNDS not found")
     rounds, t = asm_src
-    m = re.search(r"fn optimize\(self, level: OptLevel\)[^{]*\{(.*?)\n    \}", t, re.S)
-    asm_passes = []
-    if m:
-        for am in re.finditer(r"\.(\w+)\(\)", m.group(1)):
-            if am.group(1) not in ("clone", "len", "iter", "collect", "unwrap") and am.group(1) not in asm_passes:
-                asm_passes.append(am.group(1))
+    m = re.search(r"OptLevel::Opt0\s*=>\s*self((?:\s*\.\w+\([^()]*\))+)\s*,", t)
+    if not m: raise FactsError("asm optimizations/mod.rs: the Opt0 chain of asm passes not recognised")
+    asm_passes = re.findall(r"\.(\w+)\(", m.group(1))
+    o1m = re.search(r"OptLevel::Opt1\s*=>\s*\{(.*?)\n\s*self\s*\n", t, re.S)
+    if (not o1m or o1m.group(1).count("self.optimize(data_section, OptLevel::Opt0)") != 2
+            or "for _ in 0..MAX_OPT_ROUNDS" not in o1m.group(1)
+            or "Ordering::Equal => break" not in o1m.group(1) or "Ordering::Greater => return old" not in o1m.group(1)):
+        raise FactsError("asm optimizations/mod.rs: the Opt1 round loop has a new shape")
     return o0, o1, common, rounds, asm_passes
 
 def coq_strs(l):
